@@ -1,0 +1,65 @@
+//! Verification hooks (only compiled with the `verif_hooks` cargo feature).
+//!
+//! A thread-local step counter: the evaluators call [`tick`] once per lexer
+//! step, parser step, evaluator call and evaluator loop iteration. A harness
+//! arms a budget with [`arm`]; exceeding it unwinds with a [`BudgetExceeded`]
+//! payload so that a non-terminating loop becomes an observable event.
+//! With the feature off none of this exists and the crate is unchanged.
+
+use std::cell::Cell;
+
+/// Panic payload used when the armed budget is exceeded.
+#[derive(Debug, Clone, Copy)]
+pub struct BudgetExceeded {
+    pub steps: u64,
+}
+
+thread_local! {
+    static ARMED: Cell<bool> = Cell::new(false);
+    static STEPS: Cell<u64> = Cell::new(0);
+    static BUDGET: Cell<u64> = Cell::new(u64::MAX);
+    static LOOP_STEPS: Cell<u64> = Cell::new(0);
+}
+
+/// Reset the counters and start counting on this thread.
+pub fn arm(budget: u64) {
+    STEPS.with(|s| s.set(0));
+    LOOP_STEPS.with(|s| s.set(0));
+    BUDGET.with(|b| b.set(budget));
+    ARMED.with(|a| a.set(true));
+}
+
+/// Stop counting; returns the number of steps used since [`arm`].
+pub fn disarm() -> u64 {
+    ARMED.with(|a| a.set(false));
+    STEPS.with(|s| s.get())
+}
+
+/// Steps spent in value-driven evaluator loops (factorial, w, ilog, gcd) since [`arm`].
+pub fn loop_steps() -> u64 {
+    LOOP_STEPS.with(|s| s.get())
+}
+
+#[inline]
+pub(crate) fn tick() {
+    if ARMED.with(|a| a.get()) {
+        let steps = STEPS.with(|s| {
+            let v = s.get() + 1;
+            s.set(v);
+            v
+        });
+        if steps > BUDGET.with(|b| b.get()) {
+            ARMED.with(|a| a.set(false));
+            std::panic::panic_any(BudgetExceeded { steps });
+        }
+    }
+}
+
+/// Same as [`tick`], for the body of a loop whose trip count depends on a value.
+#[inline]
+pub(crate) fn tick_loop() {
+    if ARMED.with(|a| a.get()) {
+        LOOP_STEPS.with(|s| s.set(s.get() + 1));
+    }
+    tick();
+}
